@@ -35,23 +35,25 @@ structure Shapes where
 def inferK (assort : Bool) (nAffinity nL : Nat) : Nat :=
   if assort then nAffinity / nL else Nat.sqrt (nAffinity / nL)
 
+/-- expected affinity size (main.hpp:117, 123) -/
+def affSize (assort : Bool) (K nL : Nat) : Nat := if assort then K * nL else K * K * nL
+
 /-- main.hpp:77-179, in order; returns `(L, K)` -/
-def validate (sh : Shapes) : Except Err (Nat × Nat) := do
-  if sh.nStarts < 1 then throw .noEdges
-  if sh.nStarts ≠ sh.nEnds then throw .endsMismatch
-  if sh.nWeights % sh.nStarts ≠ 0 then throw .weightsNotMultiple
-  let nL := sh.nWeights / sh.nStarts
-  if nL < 1 then throw .noLayers
-  let K := inferK sh.assort sh.nAffinity nL
-  let affSize := if sh.assort then K * nL else K * K * nL
-  if K < 2 then throw .groupsLt2
-  if affSize ≠ sh.nAffinity then throw .affinitySize
-  if sh.nDistinct < 2 then throw .verticesLt2
-  if sh.nDistinct * K ≠ sh.uSize then throw .uSize
-  if sh.r < 1 then throw .realizationsLt1
-  if sh.maxIt < 1 then throw .iterationsLt1
-  if sh.nConv < 1 then throw .convergencesLt1
-  return (nL, K)
+def validate (sh : Shapes) : Except Err (Nat × Nat) :=
+  if sh.nStarts < 1 then .error .noEdges
+  else if sh.nStarts ≠ sh.nEnds then .error .endsMismatch
+  else if sh.nWeights % sh.nStarts ≠ 0 then .error .weightsNotMultiple
+  else if sh.nWeights / sh.nStarts < 1 then .error .noLayers
+  else if inferK sh.assort sh.nAffinity (sh.nWeights / sh.nStarts) < 2 then .error .groupsLt2
+  else if affSize sh.assort (inferK sh.assort sh.nAffinity (sh.nWeights / sh.nStarts))
+      (sh.nWeights / sh.nStarts) ≠ sh.nAffinity then .error .affinitySize
+  else if sh.nDistinct < 2 then .error .verticesLt2
+  else if sh.nDistinct * inferK sh.assort sh.nAffinity (sh.nWeights / sh.nStarts) ≠ sh.uSize then
+    .error .uSize
+  else if sh.r < 1 then .error .realizationsLt1
+  else if sh.maxIt < 1 then .error .iterationsLt1
+  else if sh.nConv < 1 then .error .convergencesLt1
+  else .ok (sh.nWeights / sh.nStarts, inferK sh.assort sh.nAffinity (sh.nWeights / sh.nStarts))
 
 /-- the three initialiser types: the two shipped ones and a caller-supplied one that installs
 the given affinity exactly and consumes no draw (public template parameter; used by C10) -/
